@@ -63,6 +63,10 @@ CHECKS = {
          "bounded-exhaustive enumeration of fragment sequences for the in-place rewriters and of attribute values x configurations for the escapers, with semantic oracles (regexp reference, html.UnescapeString, read-back through the real lexers)",
          "ReplaceMultipleWhitespace equals a regexp reference on all strings <=8 over the five whitespace bytes and two letters; ReplaceEntities on all sequences <=5 over 25 entity fragments x 3 reverse maps never lengthens, is idempotent, returns a prefix of its argument and leaves html.UnescapeString unchanged; the combined function equals the sequence of the two; html/xml EscapeAttrVal on all values up to 4/5 atoms x original quote x mustQuote x 3 buffer sizes are read back by the corresponding lexer as one attribute whose unquoted value decodes to the same text, with the documented quoting policy and the cheaper quote; EscapeCDATAVal declines or round-trips.",
          "Entity maps are HTML-consistent by construction; NUL references are excepted as the property says; values containing NUL are not passed to the escapers."),
+ "C18": ("exploration",
+         "exhaustive visitor stop policies over every tree of the enumerated program spaces, compared with a reflection walk of the same tree",
+         "For every tree js.Parse returns on the JS seed catalogue and 14 programs covering class members, object methods, templates and meta-properties (x 4 Options), on every accepted string of the enumerated JS alphabets and on every accepted single-edit neighbour of the seeds: Walk is run with a recording visitor under the policies 'descend everywhere', 'return nil at the i-th Enter' for every i (trees up to 48 Enter calls) and every pair (i,j) (up to 16). A reflection walk over the tree (interface, pointer, struct and slice fields; scope tables and Var.Link excluded) gives the node occurrences and the ancestor relation: every statement/expression/binding/identifier occurrence must be entered as often as it occurs unless cut, nothing outside the tree is entered, every Enter happens inside an ancestor, Exit comes exactly once per non-nil Enter in stack order, cut subtrees are not entered. The evidence lists the node types seen and fails if a node type of ast.go never occurs.",
+         "Required nodes are values held in IStmt/IExpr/IBinding fields, *Var and BlockStmt; auxiliary structs may be entered but need not be. Shared *Var and zero-size nodes are compared by occurrence counts (they are leaves)."),
  "C19": ("model_checking",
          "exhaustive enumeration of write histories x byte order x backend/environment behaviour x truncation, and of all (position, offset, whence) / (position, length) pairs, against encoding/binary, bytes.Reader and the io contracts",
          "Every history of <=3 typed writes over 27 op/value pairs (both byte orders) is compared with encoding/binary and read back on 15 backends or environment behaviours (memory, Bytes() reader, ReadSeeker incl. 1-byte chunks and EOF-with-data, ReaderAt with nil/EOF on exact fit, plain readers, *os.File, mmap) with the data truncated at every byte: values, Pos, Len, Err before/after the first over-run, stability of returned byte strings. Seek from every position x every offset x whence 0..3 and Read/ReadAt for every (pos,len) on L<=6 bytes are compared with bytes.Reader and the io.Reader/io.ReaderAt clauses; all bit strings <=17 bits and all buffers <=2 bytes go through the bitmap types.",
